@@ -25,7 +25,8 @@ RULE = ('family = one shuffled dataset object (one-time shuffle, per-epoch reshu
 PROBES = ['dataset_derived_while_iterator_in_flight', 'iterators_over_freezing_consumer',
           'second_iterator_started_while_first_in_flight', 'three_iterators_in_flight',
           'adversary_reseeded_global_state', 'displacement_bound_reached',
-          'rounds_of_an_endless_repetition', 'none_example_shuffled']
+          'rounds_of_an_endless_repetition', 'none_example_shuffled',
+          'each_repetition_of_a_shuffled_tiling_checked']
 BUDGET = {
     'quick': {'families': 20000, 'wall_cap': 420, 'shrink_s': 10},
     'thorough': {'families': 200000, 'wall_cap': 5400, 'shrink_s': 30},
@@ -471,7 +472,22 @@ def _run(case, finish):
                         % (i, sname, 'exhausted' if done[i] else 'in flight', ids,
                            dup, missing, overlap or internal_overlap)))
                     break
-                if kind == 'local' and not wrap:
+                if kind == 'tile' and wrap in (None, 'copy_only') and spec['n'] > 0:
+                    # every repetition is shuffled on its own: each complete block of
+                    # n consecutive examples is a permutation of the input
+                    n_ = spec['n']
+                    for r_ in range(len(ids) // n_):
+                        blk = ids[r_ * n_:(r_ + 1) * n_]
+                        if sorted(blk) != list(range(n_)):
+                            violations.append(hist.viol(
+                                'not_a_permutation', 'not_a_permutation:tile:repetition',
+                                'iterator %d: repetition %d of the shuffled tiling is %s, not a '
+                                'permutation of the %d inputs' % (i, r_, blk, n_)))
+                            break
+                    if violations:
+                        break
+                    probes['each_repetition_of_a_shuffled_tiling_checked'] = 1
+                if kind == 'local' and wrap in (None, 'copy_only'):
                     b = spec['b']
                     for j, p in enumerate(ids):
                         if j < p - (b - 1):
